@@ -1,4 +1,5 @@
 import TrionModel.Lemmas.AsmPrim
+import TrionModel.Lemmas.SimpE
 import TrionModel.Lemmas.AsmEnc
 import TrionModel.Lemmas.ShowEval
 /-!
@@ -11,7 +12,25 @@ namespace Trion.Asm
 open Trion
 
 theorem evalIn_const (t : Table) (v : Int) : evalIn t (.const v) = .ok (.complete (.const v)) := by
-  simp [evalIn, Show.evalT_const]
+  simp [evalIn, Simp.evaluateE]
+
+/-- on a completed evaluation the assembler's evaluator (`Simp.evaluateE`, which also keeps the tree an error leaves
+behind) is `Simp.evaluateT` -/
+theorem frontEval_complete (t : Table) (x : Arg) (ch : Bool) (a' : Arg)
+    (h : Simp.evaluateT (fun n => t.get n) Front.isRegister x = .ok ⟨ch, none⟩ a') :
+    frontEval t x = .complete a' := by
+  have hE := Simp.evaluateE_is_evaluateT (fun n => t.get n) Front.isRegister x
+  rw [h] at hE
+  cases hev : Simp.evaluateE (fun n => t.get n) Front.isRegister x with
+  | ok ev a'' =>
+    rw [hev] at hE
+    simp only [Simp.EvE.toT, Simp.EvT.ok.injEq] at hE
+    obtain ⟨h1, h2⟩ := hE
+    subst h1 h2
+    simp [frontEval, evalIn, hev]
+  | nosuch n a'' => rw [hev] at hE; simp [Simp.EvE.toT] at hE
+  | err e a'' => rw [hev] at hE; simp [Simp.EvE.toT] at hE
+  | panic => rw [hev] at hE; simp [Simp.EvE.toT] at hE
 
 theorem evalArg_const (env : Env) (st : St) (tbl : Table) (henv : env.paths ≠ []) (hl : st.locals = some tbl) (v : Int) :
     evalArg env st (.const v) = .ok (.complete (.const v)) := by
